@@ -428,7 +428,7 @@ def _prog_batches(progs, tier, seed):
         offs = [0, rnd.choice([1, 3])]
         laxoffs = [rnd.randint(0, 3)]
     else:
-        offs = [0, 1, 2, 3, 4]
+        offs = [0, 1, 2, 3]          # (with up to 4 Sets per program every representative is reached)
         laxoffs = [0, 1, 2, 3]
     n = 0
     for off in offs:
